@@ -114,6 +114,7 @@ type tracer struct {
 }
 
 type tstate struct {
+	arrays map[ssa.Value]map[int64]*SymE // contents of local array literals (variadic arguments, slice literals)
 	env    map[ssa.Value]*SymE
 	conds  []TCond
 	events []*TEvent
@@ -126,7 +127,15 @@ func (s *tstate) clone() *tstate {
 	for k, v := range s.env {
 		e[k] = v
 	}
-	return &tstate{env: e, conds: append([]TCond{}, s.conds...), events: append([]*TEvent{}, s.events...), inLoop: s.inLoop, idxPhi: s.idxPhi}
+	ar := make(map[ssa.Value]map[int64]*SymE, len(s.arrays))
+	for k, v := range s.arrays {
+		m := make(map[int64]*SymE, len(v))
+		for i, e := range v {
+			m[i] = e
+		}
+		ar[k] = m
+	}
+	return &tstate{env: e, arrays: ar, conds: append([]TCond{}, s.conds...), events: append([]*TEvent{}, s.events...), inLoop: s.inLoop, idxPhi: s.idxPhi}
 }
 
 // traceFunction enumerates the paths of fn.
@@ -158,7 +167,31 @@ func (t *tracer) walk(b, pred *ssa.BasicBlock, st *tstate, stop *ssa.BasicBlock,
 		return
 	}
 	if stop != nil && b == stop {
-		*out = append(*out, &TPath{Conds: st.conds, Events: st.events})
+		// end of a loop body: record what the iteration hands to the next one (loop-carried values
+		// other than the range index), so that accumulators are part of the trace
+		evs := st.events
+		for _, in := range b.Instrs {
+			phi, ok := in.(*ssa.Phi)
+			if !ok {
+				break
+			}
+			if phi == st.idxPhi {
+				continue
+			}
+			for i, p := range b.Preds {
+				if p == pred {
+					v := t.val(st, phi.Edges[i])
+					name := phi.Comment
+					if name == "" {
+						name = phi.Name()
+					}
+					if v.S != "loopvar("+name+")" {
+						evs = append(evs, &TEvent{Kind: "store", Args: []*SymE{{Kind: "path", S: "next(" + name + ")"}, v}})
+					}
+				}
+			}
+		}
+		*out = append(*out, &TPath{Conds: st.conds, Events: evs})
 		return
 	}
 	// loop header reached from outside: summarise the loop
@@ -233,8 +266,28 @@ func (t *tracer) summariseLoop(li *loopInfo, pred *ssa.BasicBlock, st *tstate, s
 		if !ok {
 			break
 		}
-		body.env[phi] = &SymE{Kind: "idx", S: "idx-1", T: phi.Type()}
-		body.idxPhi = phi
+		// the range index is the phi that the back edge increments by one; every other phi is a
+		// loop-carried variable (an accumulator)
+		isIdx := false
+		for i, p := range h.Preds {
+			if li.body[p] {
+				if bo, ok := phi.Edges[i].(*ssa.BinOp); ok && bo.Op == token.ADD && bo.X == ssa.Value(phi) {
+					if c, ok := bo.Y.(*ssa.Const); ok && c.Value != nil && c.Value.ExactString() == "1" {
+						isIdx = true
+					}
+				}
+			}
+		}
+		if isIdx || phi.Comment == "rangeindex" {
+			body.env[phi] = &SymE{Kind: "idx", S: "idx-1", T: phi.Type()}
+			body.idxPhi = phi
+			continue
+		}
+		name := phi.Comment
+		if name == "" {
+			name = phi.Name()
+		}
+		body.env[phi] = &SymE{Kind: "path", S: "loopvar(" + name + ")", T: phi.Type(), Base: "loopvar"}
 	}
 	// execute header non-phi instructions, then follow into the body successor
 	var bodySucc, exitSucc *ssa.BasicBlock
@@ -305,7 +358,11 @@ func (t *tracer) summariseLoop(li *loopInfo, pred *ssa.BasicBlock, st *tstate, s
 	st.inLoop = nil
 	for _, in := range h.Instrs {
 		if phi, ok := in.(*ssa.Phi); ok {
-			st.env[phi] = &SymE{Kind: "opaque", S: "after-loop(" + phi.Name() + ")", T: phi.Type()}
+			nm := phi.Comment
+			if nm == "" {
+				nm = phi.Name()
+			}
+			st.env[phi] = &SymE{Kind: "opaque", S: "after-loop(" + nm + ")", T: phi.Type()}
 		}
 	}
 	t.walk(exitSucc, h, st, stop, out)
@@ -432,6 +489,23 @@ func (t *tracer) exec(st *tstate, in ssa.Instruction) {
 		}
 		st.env[i] = &SymE{Kind: "opaque", S: fmt.Sprintf("%s#%d", tup.S, i.Index), T: i.Type(), Args: []*SymE{tup}, Base: tup.Base}
 	case *ssa.Slice:
+		if al, ok := i.X.(*ssa.Alloc); ok && i.Low == nil && i.High == nil {
+			if at, ok := al.Type().(*types.Pointer).Elem().Underlying().(*types.Array); ok {
+				// a slice literal / variadic argument list: render its elements
+				var parts []string
+				var args []*SymE
+				for k := int64(0); k < at.Len(); k++ {
+					e := st.arrays[al][k]
+					if e == nil {
+						e = &SymE{Kind: "nil", S: "zero"}
+					}
+					parts = append(parts, e.S)
+					args = append(args, e)
+				}
+				st.env[i] = &SymE{Kind: "call", S: "[" + strings.Join(parts, ", ") + "]", T: i.Type(), Args: args}
+				return
+			}
+		}
 		x := t.val(st, i.X)
 		s := x.S + "["
 		if i.Low != nil {
@@ -452,6 +526,21 @@ func (t *tracer) exec(st *tstate, in ssa.Instruction) {
 		st.env[i] = &SymE{Kind: "path", S: x.S + "[" + k.S + "]", T: i.Type(), Base: x.Base, Args: []*SymE{x, k}}
 	case *ssa.Store:
 		a, v := t.val(st, i.Addr), t.val(st, i.Val)
+		if ia, ok := i.Addr.(*ssa.IndexAddr); ok {
+			if al, ok := ia.X.(*ssa.Alloc); ok {
+				if c, ok := ia.Index.(*ssa.Const); ok && c.Value != nil {
+					if st.arrays == nil {
+						st.arrays = map[ssa.Value]map[int64]*SymE{}
+					}
+					if st.arrays[al] == nil {
+						st.arrays[al] = map[int64]*SymE{}
+					}
+					k, _ := constant.Int64Val(constant.ToInt(c.Value))
+					st.arrays[al][k] = v
+					return
+				}
+			}
+		}
 		if a.Base == "local" {
 			// local cell: remember its content
 			st.env[i.Addr] = &SymE{Kind: "path", S: a.S, T: a.T, Base: "local", Args: []*SymE{v}}
